@@ -3,6 +3,8 @@ usage: python -m harness.ser_worker <env id> <order: forward|reverse|shuffle> <t
 import enum
 import json
 import os
+
+import attr
 import random
 import sys
 
@@ -37,7 +39,31 @@ def object_list(thorough):
                 picked.append((d, v))
         for d, v in picked[:(16 if thorough else 8)]:
             out.append((cls, v))
+            BASE_OF[len(out) - 1] = obj           # differs from the template in one field
+        # text that is hostile to a renderer (format fields, percent directives, several lines): in the first text-valued field
+        # the constructor lets it into
+        if attr.has(cls) and seen_cls[cls] == 1:
+            for f in attr.fields(cls):
+                if f.init and isinstance(getattr(obj, f.name, None), str):
+                    try:
+                        out.append((cls, attr.evolve(obj, **{f.name.lstrip('_'): HOSTILE})))
+                        break
+                    except Exception:  # pylint: disable=broad-except
+                        continue
+    # ... and inside list items, where only a parser puts it: unknown header fields, SPF macros
+    from .api import call
+    from cryptoparser.httpx.header import HttpHeaderFields
+    from cryptoparser.dnsrec.txt import DnsRecordTxtValueSpf
+    for pcls, data in ((HttpHeaderFields, b'X-Json: {"a": {0}, "b": "}{"}\r\nX-Format: %s %(x)s {x!r:>{w}} {}\r\nAge: 1\r\n\r\n'),
+                       (DnsRecordTxtValueSpf, b'v=spf1 exists:%{ir}.%{v}._spf.%{d2} include:%{d}.example.com -all')):
+        o, res, _ = call(pcls.parse_exact_size, data)
+        if o == 'ok':
+            out.append((pcls, res))
     return out
+
+
+HOSTILE = '{0} {x} }{ {} %s %(a)s'
+BASE_OF = {}
 
 
 _ENC = []
@@ -163,6 +189,22 @@ def main():
         rec['md'] = digest(m1[1]) if m1[0] == 'ok' and isinstance(m1[1], str) else 'err:' + type(m1[1]).__name__
         rec['md2'] = digest(m2[1]) if m2[0] == 'ok' and isinstance(m2[1], str) else 'err:' + type(m2[1]).__name__
         rec['doc'] = j1[1] if rec['json_ok'] and wf and len(j1[1]) < 3000 else None
+        # an equal object: the template this variant was made from, when the library says the two are equal
+        rec['eq_base'] = False
+        rec['base_json'] = rec['base_md'] = '-'
+        base = BASE_OF.get(i)
+        if base is not None:
+            try:
+                eq = bool(obj == base) and not bool(obj != base) and type(obj) is type(base)
+            except Exception:  # pylint: disable=broad-except
+                eq = False
+            if eq:
+                tb = base if getattr(type(base), 'as_markdown', None) is not None else objects.holder(base)
+                bj = call(lambda o: o.as_json(), tb)
+                bm = call(lambda o: o.as_markdown(), tb)
+                rec['eq_base'] = True
+                rec['base_json'] = digest(bj[1]) if bj[0] == 'ok' else 'err'
+                rec['base_md'] = digest(bm[1]) if bm[0] == 'ok' and isinstance(bm[1], str) else 'err'
         # an equal object: the parse-compose round trip of this one
         rec['rt_ok'] = False
         rec['rt_json'] = rec['rt_md'] = '-'
